@@ -11,7 +11,7 @@ import traceback
 
 import z3
 
-from . import core, run
+from . import core, poly, run
 from .core import Unsupported
 from .run import CGoal, ConcRun, F64Run, Goal, OutOfDomain, SymRun
 
@@ -51,7 +51,35 @@ def _bare_root(ctx, sym):
     return None
 
 
-def discharge(ctx, goal, timeout_ms):
+def _discharge_poly(ctx, P, cond, timeout_ms, depth):
+    """prove cond => P == 0; an unconditional identity found on the way becomes a lemma"""
+    it = core._find_ite(P)
+    if it is not None and depth < 3:
+        cnd, ta, tb = it.children()
+        for c2, repl in ((cnd, ta), (z3.Not(cnd), tb)):
+            Pb = z3.substitute(P, (it, repl))
+            ctx.keep.append(Pb)
+            v, m, info = _discharge_poly(ctx, Pb, z3.And(cond, c2), timeout_ms, depth + 1)
+            if v != "unsat":
+                return v, m, info
+        return "unsat", None, {"case_split": True}
+    try:
+        t0 = time.time()
+        resid, info = poly.normal_form(ctx, P)
+        ctx.stats.add("normal_form", time.time() - t0)
+        if resid is None:
+            # P == 0 holds on every model of the facts: usable as a lemma from now on
+            ctx.add_fact(P == 0, "rel", "lemma(normal-form identity)")
+            return "unsat", None, {"iters": 0, "normal_form": info}
+        ctx.keep.append(resid)
+        v, m, i2 = ctx.prove(z3.Implies(cond, resid == 0), timeout_ms)
+        i2["normal_form"] = info
+        return v, m, i2
+    except poly.TooBig:
+        return ctx.prove(z3.Implies(cond, P == 0), timeout_ms)
+
+
+def discharge(ctx, goal, timeout_ms, depth=0):
     """returns (verdict, model, info); verdict in unsat/sat/unknown"""
     if goal.parts:
         worst = ("unsat", None, {"parts": len(goal.parts)})
@@ -76,7 +104,34 @@ def discharge(ctx, goal, timeout_ms):
                 break
     if goal.kind in ("eq", "eq_log") and goal.sides is not None:
         a, b = goal.sides
-        P = z3.simplify(a.n * b.d - b.n * a.d, som=True)
+        P0 = a.n * b.d - b.n * a.d
+        ctx.keep.append(P0)
+        it = core._find_ite(P0)
+        if it is not None and depth < 3:
+            # case split on the if-then-else; an identity proved in one branch is a lemma for the other
+            cnd, ta, tb = it.children()
+            worst = None
+            for cond, repl in ((cnd, ta), (z3.Not(cnd), tb)):
+                Pb = z3.substitute(P0, (it, repl))
+                ctx.keep.append(Pb)
+                v, m, info = _discharge_poly(ctx, Pb, cond, timeout_ms, depth + 1)
+                if v != "unsat":
+                    return v, m, info
+                worst = info
+            return "unsat", None, {"case_split": True, "iters": (worst or {}).get("iters", 0)}
+        try:
+            t0 = time.time()
+            resid, info = poly.normal_form(ctx, P0)
+            ctx.stats.add("normal_form", time.time() - t0)
+            if resid is None:
+                return "unsat", None, {"iters": 0, "normal_form": info}
+            ctx.keep.append(resid)
+            v, m, i2 = ctx.prove(resid == 0, timeout_ms)
+            i2["normal_form"] = info
+            return v, m, i2
+        except poly.TooBig:
+            pass
+        P = z3.simplify(P0, som=True)
         ctx.keep.append(P)
         if z3.is_rational_value(P) and P.numerator_as_long() == 0:
             return "unsat", None, {"iters": 0, "syntactic": True}
